@@ -234,11 +234,16 @@ static bool GC_Mem_Ptr(struct GC* gc, var ptr) {
 
 static void GC_Rem_Ptr(struct GC* gc, var ptr) {
   
-  if (gc->nslots is 0) { return; }
-  
+  /* Pending in the sweep in progress: finalise it now, the sweep skips it */
   for (size_t i = 0; i < gc->freenum; i++) {
-    if (gc->freelist[i] is ptr) { gc->freelist[i] = NULL; }
+    if (gc->freelist[i] is ptr) {
+      gc->freelist[i] = NULL;
+      dealloc(destruct(ptr));
+      return;
+    }
   }
+  
+  if (gc->nslots is 0) { return; }
   
   uint64_t i = GC_Hash(ptr) % gc->nslots;
   uint64_t j = 0;
@@ -469,8 +474,10 @@ void GC_Sweep(struct GC* gc) {
   
   for (size_t i = 0; i < gc->freenum; i++) {
     CELLO_VERIF_YIELD(6);
-    if (gc->freelist[i]) {
-      dealloc(destruct(gc->freelist[i]));
+    var item = gc->freelist[i];
+    if (item) {
+      gc->freelist[i] = NULL;
+      dealloc(destruct(item));
     }
   }
   
